@@ -377,7 +377,9 @@ class LayoutContext:
     def _update_footnote_area(self):
         """Update the page bottom size and our footnote area height."""
         if self.current_footnote_area.height != 'auto' and not self.in_column:
-            self.page_bottom += self.current_footnote_area.margin_height()
+            # A footnote area can't extend the page: see below
+            self.page_bottom += max(
+                0, self.current_footnote_area.margin_height())
         self.current_footnote_area.children = self.current_page_footnotes
         if self.current_footnote_area.children:
             footnote_area = build.create_anonymous_boxes(
@@ -387,7 +389,9 @@ class LayoutContext:
                 self.current_footnote_area.page)[0]
             self.current_footnote_area.height = footnote_area.height
             if not self.in_column:
-                self.page_bottom -= footnote_area.margin_height()
+                # A margin box with a negative height (negative margins)
+                # can't move the page bottom below the page
+                self.page_bottom -= max(0, footnote_area.margin_height())
             last_child = footnote_area.children[-1]
             overflow = (
                 last_child.position_y + last_child.margin_height() >
